@@ -83,6 +83,14 @@ CLAIMED = {
          "satisfies W'W^T + WW'^T = FP + PF^T + Q; sqrt_correct (n = m = 1, CasADi's symbolic QR inlined) gives Ss Ss^T = HPH^T + R, "
          "K S = P H^T and W+W+^T = (I - KH)P. Larger sizes (n <= 7, m <= 3), P+ <= P and the h^5 local error: numeric search only (named in evidence).",
          "DESIGN.md §2 C10", TECH_T),
+ "C11": ("proof", "Lean 4 theorems over the regenerated estimator programs: a rejected accelerometer / magnetometer correction (error code != 0) "
+         "returns ALL six state components and every lower-triangle entry of the covariance factor unchanged (over the reals), the error codes lie "
+         "in the documented finite sets, a failed initialisation returns the zero state; the predicted MRP has norm <= 1 and is the same rotation "
+         "as the integrated one (shadow selection), the bias is carried over; for EVERY state, factor and measurement an accepted correction "
+         "satisfies P - W+W+^T = G G^T >= 0 under the QR contract (Q^T Q = 1, Q R = A) — generic theorem Lib/SqrtFilter for all dimensions, "
+         "instantiated on the QR-abstracted variants of the real programs. Initialisation exactness, fourth-order accuracy, finiteness, ca.qr "
+         "meeting its contract: numeric search only (named in evidence). 1 known finding (-0.0 on rejection).",
+         "DESIGN.md §2 C11", TECH_T),
 }
 checks = []
 for pid, (cat, text, ref, tech) in CLAIMED.items():
